@@ -216,6 +216,24 @@ def schemas_tla():
     lines.append("SchemaOf == [\n  " + ",\n  ".join(entries) + "]")
     lines.append("")
     lines.append("SchemaNames == DOMAIN SchemaOf")
+    lines.append("")
+    lines.append("\\* the resources of the VT family as a router tree (Router.tla) and their methods")
+    nodes = []
+    roots = []
+    for r in RESOURCES:
+        segs = r["resourcePathSegments"]
+        n = segs[-1]["resourceName"]
+        coll = segs[-1]["pathKey"] is not None
+        if len(segs) == 1: roots.append(n)
+        subs = [x["resourcePathSegments"][-1]["resourceName"] for x in RESOURCES if len(x["resourcePathSegments"]) == len(segs) + 1 and x["resourcePathSegments"][-2]["resourceName"] == n]
+        ms = [m["name"] for m in r["methods"] if m["methodType"] == "REST_METHOD"]
+        fs = [m["name"] for m in r["methods"] if m["methodType"] == "FINDER"]
+        acts = [m["name"] for m in r["methods"] if m["methodType"] == "ACTION"]
+        eacts = [m["name"] for m in r["methods"] if m["methodType"] == "ACTION" and m["onEntity"]]
+        st = lambda xs: "{" + ", ".join(tla_str(x) for x in xs) + "}"
+        nodes.append('%s |-> [coll |-> %s, methods |-> %s, finders |-> %s, actions |-> %s, subs |-> %s, entityActions |-> %s, depth |-> %d, parentColl |-> %s]'
+                     % (n, "TRUE" if coll else "FALSE", st(ms), st(fs), st(acts), st(subs), st(eacts), len(segs), "TRUE" if len(segs) > 1 and segs[-2]["pathKey"] is not None else "FALSE"))
+    lines.append("VTTree == [id |-> \"VT\", roots |-> {%s},\n  nodes |-> [\n    %s]]" % (", ".join(tla_str(x) for x in roots), ",\n    ".join(nodes)))
     lines.append("=============================================================================")
     return "\n".join(lines) + "\n"
 
@@ -241,6 +259,23 @@ if __name__ == "__main__":
             for k, d in t.items():
                 if k == "record" and any("defaultValue" in f for f in d["fields"]):
                     print('\t"%s": func() any { return vt.New%sWithDefaultValues() },' % (d["name"], d["name"]))
+        print("}")
+    elif sys.argv[1] == "resources":
+        pkg = sys.argv[2]
+        names = []
+        for r in RESOURCES:
+            n = r["resourcePathSegments"][-1]["resourceName"]
+            names.append(n)
+        print("// GENERATED by schemas/vt.py\npackage main\n\nimport (\n\t\"reflect\"\n\n\t\"github.com/PapaCharlie/go-restli/v2/restli\"")
+        for n in names:
+            print('\t%s "%s/vt/%s"' % (n.lower(), pkg, n))
+            print('\t%stest "%s/vt/%s_test"' % (n.lower(), pkg, n))
+        print(")\n\ntype resInfo struct {\n\tnewClient func(c *restli.Client) any\n\tregister  func(s restli.Server, r any)\n\tmock      reflect.Type\n\tsegments  []string\n\treadOnly  []string\n\tcreateOnly []string\n}\n\nvar resources = map[string]resInfo{")
+        for r in RESOURCES:
+            n = r["resourcePathSegments"][-1]["resourceName"]; l = n.lower()
+            segs = ", ".join('"%s"' % s["resourceName"] for s in r["resourcePathSegments"])
+            print('\t"%s": {newClient: func(c *restli.Client) any { return %s.NewClient(c) }, register: func(s restli.Server, r any) { %s.RegisterResource(s, r.(%s.Resource)) }, mock: reflect.TypeOf(%stest.MockResource{}), segments: []string{%s}, readOnly: []string{%s}, createOnly: []string{%s}},'
+                  % (n, l, l, l, l, segs, ", ".join('"%s"' % x for x in r["readOnlyFields"]), ", ".join('"%s"' % x for x in r["createOnlyFields"])))
         print("}")
     elif sys.argv[1] == "tla":
         sys.stdout.write(schemas_tla())
